@@ -257,6 +257,7 @@ class OptimizerCapture:
         self.solves = []
         self.want_rows = want_rows
         self._orig = {}
+        self._by_model = {}
 
     def __enter__(self):
         from src.optimizer.optimizer import Optimizer
@@ -279,7 +280,32 @@ class OptimizerCapture:
             except Exception as e:  # never disturb the run
                 rec["capture_error"] = repr(e)
             self_._verif_rec = rec
+            try:
+                cap._by_model[id(res[0])] = (rec, var_index(res[1]))
+            except Exception:  # noqa
+                pass
             return res
+
+        import pulp
+        o_solve = pulp.LpProblem.solve
+        self._pulp = pulp
+        self._o_solve = o_solve
+
+        def solve(model, *a, **k):
+            # the objective PuLP is actually asked to optimise, per solve (the first one defines the reported number)
+            hit = cap._by_model.get(id(model))
+            if hit is not None:
+                rec, idx = hit
+                try:
+                    obj = model.objective
+                    terms = sorted([list(idx.get(v.name, (99, 0))) + [float(c)] for v, c in obj.items()]) if obj is not None else []
+                    rec.setdefault("objectives", []).append({"sense": int(model.sense), "terms": terms,
+                                                             "constant": float(getattr(obj, "constant", 0.0) or 0.0)})
+                except Exception as e:  # never disturb the run
+                    rec.setdefault("objectives", []).append({"capture_error": repr(e)})
+            return o_solve(model, *a, **k)
+
+        pulp.LpProblem.solve = solve
 
         def wrap_opt(orig):
             def f(self_, *a, **k):
@@ -301,4 +327,6 @@ class OptimizerCapture:
     def __exit__(self, *a):
         for k, v in self._orig.items():
             setattr(self._cls, k, v)
+        self._pulp.LpProblem.solve = self._o_solve
+        self._by_model.clear()
         return False
